@@ -97,9 +97,10 @@ class NonPreemptive(Policy):
     preemptions: {step: k} -> at that step switch to the k-th *other* enabled actor.
     """
 
-    def __init__(self, preemptions: dict[int, int] | None = None) -> None:
+    def __init__(self, preemptions: dict[int, int] | None = None, newest_first: bool = False) -> None:
         self.preemptions = preemptions or {}
         self.used: list[int] = []
+        self.newest_first = newest_first  # free choices (current actor parked / done) go to the newest actor instead of the oldest
 
     def choose(self, enabled, current, step):
         if step in self.preemptions and len(enabled) > 1:
@@ -110,7 +111,7 @@ class NonPreemptive(Policy):
             return enabled[(self.preemptions[step] + 1) % len(enabled)]
         if current is not None and current in enabled:
             return current
-        return enabled[0]
+        return enabled[-1] if self.newest_first else enabled[0]
 
 
 class Replay(Policy):
